@@ -11,6 +11,8 @@ from ..harness import Sub, Violation
 from ..spy import BatchRecorder, optimiser_spy, rows_to_indices, val_score_spy
 from .c03 import mlcl_arg
 
+QUICK_SCALE = 4  # quick budgets below are multiplied by this (kept at about half a minute on 8 processes)
+
 RULE = ("real fits / paths of every batched family (KernelRIM, Douglas, nonparametric models included), plain and "
         "mlcl-decorated, n in [1,25], batch_size in {None,1..n+2}, max_iter in [1,4], data rows made unique by an id "
         "column; a recording wrapper on the instance's _batchify sees the array to split, the affinity and every yielded "
